@@ -68,6 +68,7 @@ AB_TOO_LONG = 0x06070012
 AB_TOO_SHORT = 0x06070013
 AB_NO_SUBINDEX = 0x06090011
 AB_GENERAL = 0x08000000
+AB_STATE = 0x08000022
 
 # mailbox error reply details (ETG.1000.4)
 MBXERR_SYNTAX, MBXERR_UNSUPPORTED, MBXERR_CHANNEL, MBXERR_SERVICE, \
@@ -100,6 +101,11 @@ class SdoServer:
 
     Entries have a fixed length (a download of a different length is aborted
     with 0x06070010) unless listed in `variable`.
+    Access rights: entries are read-write unless listed in `readonly`
+    (download aborted with 0x06010002), `writeonly` (upload aborted with
+    0x06010001) or `upload_refused` ({(index, sub): abort code}, e.g.
+    0x08000022 'not in the present device state').  A complete access is
+    refused as soon as one of the entries it covers refuses the direction.
     Everything the master does against the protocol lands in
     `protocol_errors` as (code, detail...) tuples; aborts sent are in
     `aborts` as (index, subindex, abort code).
@@ -109,6 +115,8 @@ class SdoServer:
         self.objects = dict(objects or {})
         self.variable = set()        # (index, sub) of variable length
         self.readonly = set()
+        self.writeonly = set()
+        self.upload_refused = {}     # (index, sub) -> abort code
         self.entry_meta = {}         # (index, sub) -> (datatype, bitlen,
         #                                              access, name)
         self.object_meta = {}        # index -> (datatype, objcode, name)
@@ -156,6 +164,20 @@ class SdoServer:
             n = self.objects[index, 0][0]
             subs = [s for s in subs if s <= n]
         return subs
+
+    def _ca_covered(self, index, first):
+        """subindices a complete access starting at `first` touches"""
+        return ([0] if first == 0 and (index, 0) in self.objects else []) \
+            + self._ca_entries(index)
+
+    def upload_refusal(self, index, sub, ca):
+        """abort code if the entry / the object refuses to be uploaded"""
+        for s in (self._ca_covered(index, sub) if ca else [sub]):
+            if (index, s) in self.writeonly:
+                return AB_WRITEONLY
+            if (index, s) in self.upload_refused:
+                return self.upload_refused[index, s]
+        return None
 
     def ca_value(self, index, first):
         """value of a complete access starting at subindex `first`"""
@@ -320,6 +342,9 @@ class SdoServer:
             if any((index, s) in self.variable
                    for s in self.subindices(index)):
                 return AB_CA_VARIABLE
+            if any((index, s) in self.readonly
+                   for s in self._ca_covered(index, sub)):
+                return AB_READONLY
             if size != len(self.ca_value(index, sub)):
                 return AB_LENGTH
             return None
@@ -374,6 +399,9 @@ class SdoServer:
             if (index, sub) not in self.objects:
                 return self._abort(index, sub, AB_NO_SUBINDEX)
             value = self.objects[index, sub]
+        why = self.upload_refusal(index, sub, ca)
+        if why:
+            return self._abort(index, sub, why)
         cabit = 0x10 if ca else 0
         self.events.append(("upload-init", index, sub, ca, len(value)))
         if 1 <= len(value) <= 4 and self.expedited_upload:
@@ -997,6 +1025,25 @@ def selftest(src=None):
     aborted(c, hdr + struct.pack("<BHB4x", 0x40, 0x2000, 9), AB_NO_SUBINDEX)
     c.one(hdr + struct.pack("<BHB4x", 0x40, 0x2000, 1))
     aborted(c, hdr + struct.pack("<B7x", 0x70), AB_TOGGLE)
+    s, c = fresh()          # access rights: write-only, read-only, state
+    s.writeonly.add((0x2000, 1))
+    aborted(c, hdr + struct.pack("<BHB4x", 0x40, 0x2000, 1), AB_WRITEONLY)
+    aborted(c, hdr + struct.pack("<BHB4x", 0x50, 0x2000, 1), AB_WRITEONLY)
+    assert c.upload(0x2000, 0) == b"\1"
+    c.download(0x2000, 1, bytes(range(30)))
+    assert s.objects[0x2000, 1] == bytes(range(30))
+    s, c = fresh()
+    s.upload_refused[0x2000, 1] = AB_STATE
+    aborted(c, hdr + struct.pack("<BHB4x", 0x40, 0x2000, 1), AB_STATE)
+    s, c = fresh()
+    s.readonly.add((0x2000, 1))
+    aborted(c, hdr + struct.pack("<BHBI", 0x21, 0x2000, 1, 30) + bytes(16),
+            AB_READONLY)
+    aborted(c, hdr + struct.pack("<BHBI", 0x31, 0x2000, 1, 30) + bytes(16),
+            AB_READONLY)
+    assert s.xfer is None and s.objects[0x2000, 1] == bytes(30)
+    assert c.upload(0x2000, 1) == bytes(30)
+    assert not s.protocol_errors
     s, c = fresh()          # message longer than the mailbox, repeats
     r = s(c.term, mbx_pack(COE, bytes(40), counter=1)[:32])
     assert mbx_parse(r[0]).type == ERR and \
